@@ -172,7 +172,7 @@ func RandGenBank(r *rand.Rand, o GBOpt, labelPrefix string) seqio.GenBank {
 		}
 	}
 	for i, n := 0, r.Intn(4); i < n; i++ {
-		f.DBLink = append(f.DBLink, seqio.Pair{Key: []string{"BioProject", "BioSample", "Assembly", "Sequence Read Archive"}[i], Value: []string{"PRJNA" + fmt.Sprint(r.Intn(99999)), "SAMN0" + fmt.Sprint(r.Intn(9999)), "GCF_000005845.2", ""}[r.Intn(4)]})
+		f.DBLink = append(f.DBLink, seqio.Pair{Key: []string{"BioProject", "BioSample", "Assembly", "Sequence Read Archive"}[i], Value: []string{"PRJNA" + fmt.Sprint(r.Intn(99999)), "SAMN0" + fmt.Sprint(r.Intn(9999)), "GCF_000005845.2", "", "ti:123456", "a:b:c"}[r.Intn(6)]})
 	}
 	for i, n := 0, r.Intn(9); i < n; i++ {
 		f.Keywords = append(f.Keywords, words(r, 1+r.Intn(3)))
